@@ -125,23 +125,10 @@ def rowspec(expr, b, at):
         skip, arity = 0, ("rest",)
         extra_skip = 0
         base = src.value if isinstance(src, ast.Subscript) and isinstance(src.slice, ast.Slice) else src
-        for _ in range(4):
-            if isinstance(base, ast.Name):
-                d = b.reaching(base.id, at)
-                if d is not None:
-                    base = d
-                    continue
-                k = starred_offset(b, base.id)
-                if k is not None:
-                    extra_skip += k[0]
-                    base = k[1]
-                    continue
-                if base.id not in b.loops and base.id not in au.params(b_fn(b)) and b.count.get(base.id, 0) > 0:
-                    extra_skip = None          # bound in a way the model does not follow: position in the line unknown
-                break
-            if not isinstance(base, (ast.ListComp, ast.GeneratorExp)) and not _plain_token_list(base):
-                extra_skip = None              # tokens of a part of the line only (`line[2:].split()`): position unknown
-            break
+        if isinstance(base, ast.Name):
+            extra_skip = base_offset(b, base.id, at)      # None: bound in a way the model does not follow
+        elif not isinstance(base, (ast.ListComp, ast.GeneratorExp)) and not _plain_token_list(base):
+            extra_skip = None                              # tokens of a part of the line only: position unknown
         if isinstance(src, ast.Subscript) and isinstance(src.slice, ast.Slice):
             skip, arity = slice_info(src.slice)
         elif isinstance(src, (ast.ListComp, ast.GeneratorExp)) and len(src.generators) == 1 and not src.generators[0].ifs:
